@@ -403,16 +403,23 @@ fn summarize(u: &[Unit]) -> Vec<String> {
 
 /// run one or two programs as consecutive commands (text or binary), each followed by a PING
 fn run_programs(progs: &[&Prog], kmap: &[usize; 3], bin: bool, env: u64, st: &mut Stats) -> Result<(), Violation> {
+    run_programs_mixed(progs, kmap, bin, 0, env, st)
+}
+
+/// `mix`: bit i set = program i runs in the other mode than `bin` says
+fn run_programs_mixed(progs: &[&Prog], kmap: &[usize; 3], bin: bool, mix: u64, env: u64, st: &mut Stats) -> Result<(), Violation> {
+    let bin_of = |i: usize| bin ^ (mix >> i & 1 == 1);
+    let any_bin = (0..progs.len()).any(bin_of);
     let cols = [mk_cols(kmap[0]), mk_cols(kmap[1]), mk_cols(kmap[2])];
     let interps: Vec<Interp> = progs.iter().map(|p| interpret(p, kmap, &cols)).collect();
     let mut cmds = Vec::new();
-    if bin {
+    if any_bin {
         cmds.push(ClientCmd::new(with_byte(COM_STMT_PREPARE, b"id=1 p=0")));
     }
     let mut prog_cmd_idx = Vec::new();
-    for _ in progs {
+    for i in 0..progs.len() {
         prog_cmd_idx.push(cmds.len());
-        if bin {
+        if bin_of(i) {
             cmds.push(ClientCmd::new(cmd_execute(1, 0, 1, &[])));
         } else {
             cmds.push(q(b"run"));
@@ -457,7 +464,7 @@ fn run_programs(progs: &[&Prog], kmap: &[usize; 3], bin: bool, env: u64, st: &mu
     // which program (if any) must be refused first
     let first_refused = interps.iter().position(|i| i.refuse_by.is_some());
     // per-call results, grouped by callback index
-    let cb_of_prog: Vec<usize> = (0..progs.len()).map(|i| 1 + if bin { 1 } else { 0 } + i).collect();
+    let cb_of_prog: Vec<usize> = (0..progs.len()).map(|i| 1 + if any_bin { 1 } else { 0 } + i).collect();
     for (pi, it) in interps.iter().enumerate() {
         if let Some(fr) = first_refused {
             if pi > fr {
@@ -519,7 +526,7 @@ fn run_programs(progs: &[&Prog], kmap: &[usize; 3], bin: bool, env: u64, st: &mu
     let d = decode_all(delivered(&o), &conv, &s.last_seq, conv.cmds.len(), false).map_err(|e| Violation::new("response-undecodable", e))?;
     for (pi, it) in interps.iter().enumerate() {
         let ci = prog_cmd_idx[pi];
-        compare_units(&d.replies[ci], &it.units, bin).map_err(|e| Violation::new("response-differs", format!("program {}: {}", pi, e)))?;
+        compare_units(&d.replies[ci], &it.units, bin_of(pi)).map_err(|e| Violation::new("response-differs", format!("program {}: {}", pi, e)))?;
         match &d.replies[ci + 1][..] {
             [Unit::Ok { status, .. }] if status & STATUS_MORE_RESULTS == 0 => {}
             other => return Err(Violation::new("sentinel-shifted", format!("the PING after program {} was answered by {:?}", pi, summarize(other)))),
@@ -605,6 +612,49 @@ impl Family for PairFamily {
         let a = &self.progs[((idx / 2) / n) as usize];
         let b = &self.progs[((idx / 2) % n) as usize];
         json!({"mode": if idx % 2 == 1 {"binary"} else {"text"}, "first": prog_names(a, &[0,1,2]), "second": prog_names(b, &[0,1,2])})
+    }
+}
+
+/// three programs on one connection, in every combination of text and binary mode
+pub struct TripleFamily {
+    progs: Vec<Prog>,
+    /// true: every triple under all 8 mode combinations; false: the combination rotates
+    all_modes: bool,
+    label: &'static str,
+}
+
+impl TripleFamily {
+    fn pick(&self, idx: u64) -> (Vec<&Prog>, u64) {
+        let n = self.progs.len() as u64;
+        if !self.all_modes {
+            let d = digits(idx, &[n, n, n]);
+            return (vec![&self.progs[d[0] as usize], &self.progs[d[1] as usize], &self.progs[d[2] as usize]], (d[0] + 3 * d[1] + 5 * d[2]) % 8);
+        }
+        let d = digits(idx, &[8, n, n, n]);
+        (vec![&self.progs[d[1] as usize], &self.progs[d[2] as usize], &self.progs[d[3] as usize]], d[0])
+    }
+}
+
+impl Family for TripleFamily {
+    fn name(&self) -> String {
+        self.label.into()
+    }
+    fn len(&self) -> u64 {
+        (self.progs.len() as u64).pow(3) * if self.all_modes { 8 } else { 1 }
+    }
+    fn run(&self, idx: u64, st: &mut Stats) -> Result<(), Violation> {
+        let (ps, mix) = self.pick(idx);
+        st.nontrivial += 1;
+        st.bump("triples");
+        run_programs_mixed(&ps, &[0, 1, 2], false, mix, (idx / 8) % N_ENVS, st).map_err(|mut v| {
+            v.key = format!("triple:{}", v.key);
+            v.msg = format!("modes {:03b} (bit i set = program i binary): {}", mix, v.msg);
+            v
+        })
+    }
+    fn describe(&self, idx: u64) -> J {
+        let (ps, mix) = self.pick(idx);
+        json!({"binary_mask": mix, "programs": ps.iter().map(|p| prog_names(p, &[0,1,2])).collect::<Vec<_>>()})
     }
 }
 
@@ -770,6 +820,16 @@ pub fn build(quick: bool) -> Check {
     let pairs = PairFamily {
         progs: programs(if quick { 3 } else { 4 }, &[0, 1, 2]),
     };
+    let triples = TripleFamily {
+        progs: programs(if quick { 2 } else { 3 }, &[0, 1, 2]),
+        all_modes: true,
+        label: "program-triples-all-mode-combinations",
+    };
+    let triples_rot = TripleFamily {
+        progs: programs(3, &[0, 1, 2]),
+        all_modes: false,
+        label: "program-triples-rotating-modes",
+    };
     let long = ProgFamily {
         label: "long-replies".into(),
         progs: long_programs(),
@@ -786,7 +846,7 @@ pub fn build(quick: bool) -> Check {
     Check {
         id: "C03",
         level: "model_checking",
-        rule: format!("every complete program of <= {} writer calls through the typestate automaton (start(0|1|2 cols), write_col(v|NULL), end_row, write_row(0|k|k+1), finish, finish_one, finish_error, complete_one, completed, error, no_more_results, drop), in text and binary mode, each followed by a PING sentinel ({} programs); wide variants (k=3, k=300); all ordered pairs of short programs; library replies and silent commands; replies of 245..262, 300, 520, 1000 rows, 300 columns, and chains of 70..300 resultsets / completions. Environment: every program of <= 4 (thorough: 6) calls runs under each of six client/transport variants (other handshake layouts and capability sets, 1- and 7-byte transport writes, 3-byte reads, lock-step client); longer programs and pairs rotate through them. Oracle: reference interpreter -> predicted response units vs strict decode; shape-contradicting programs must be refused at or before the call that closes the malformed row and nothing malformed may reach the transport. Non-trivial = program of >= 3 calls.", depth, n_main),
+        rule: format!("every complete program of <= {} writer calls through the typestate automaton (start(0|1|2 cols), write_col(v|NULL), end_row, write_row(0|k|k+1), finish, finish_one, finish_error, complete_one, completed, error, no_more_results, drop), in text and binary mode, each followed by a PING sentinel ({} programs); wide variants (k=3, k=300); all ordered pairs of short programs; all ordered triples of programs of <= 2 (thorough: 3) calls in all 8 combinations of text and binary mode on one connection, and of <= 3 calls with the combination rotating; library replies and silent commands; replies of 245..262, 300, 520, 1000 rows, 300 columns, and chains of 70..300 resultsets / completions. Environment: every program of <= 4 (thorough: 6) calls runs under each of six client/transport variants (other handshake layouts and capability sets, 1- and 7-byte transport writes, 3-byte reads, lock-step client); longer programs and pairs rotate through them. Oracle: reference interpreter -> predicted response units vs strict decode; shape-contradicting programs must be refused at or before the call that closes the malformed row and nothing malformed may reach the transport. Non-trivial = program of >= 3 calls.", depth, n_main),
         assumptions: vec![
             "a fresh QueryResultWriter that is dropped or told no_more_results without starting anything is outside the property and not generated".into(),
             "a malformed row closed by drop has no call result: refusal is then 'run_on returns the deferred error'".into(),
@@ -794,7 +854,7 @@ pub fn build(quick: bool) -> Check {
         bounds: json!({"max_calls": depth, "programs": n_main}),
         exhaustive: true,
         caps_hit: vec![],
-        families: vec![Box::new(main), Box::new(wide), Box::new(pairs), Box::new(BuiltinFamily), Box::new(long), Box::new(long_wide)],
-        required: vec!["runs_under_another_environment", "shape_contradicting_programs", "chained_responses", "programs_ending_in_drop", "malformed_row_closed_by_drop", "pairs", "builtin"],
+        families: vec![Box::new(main), Box::new(wide), Box::new(pairs), Box::new(triples), Box::new(triples_rot), Box::new(BuiltinFamily), Box::new(long), Box::new(long_wide)],
+        required: vec!["runs_under_another_environment", "shape_contradicting_programs", "chained_responses", "programs_ending_in_drop", "malformed_row_closed_by_drop", "pairs", "triples", "builtin"],
     }
 }
